@@ -16,6 +16,67 @@ def py_crc(c, bs):
     return c
 
 
+_PY_TABLE = None
+
+
+def py_crc_long(c, bs):
+    """the same function for long buffers: byte-wise through a table that is itself computed from the bitwise definition
+    (py_crc of the one-byte strings), and cross-checked against py_crc on a prefix"""
+    global _PY_TABLE
+    if _PY_TABLE is None:
+        _PY_TABLE = [py_crc(0, bytes([i])) for i in range(256)]
+    t = _PY_TABLE
+    c0 = c
+    for b in bs:
+        c = (c >> 8) ^ t[(c ^ b) & 0xff]
+    assert py_crc(c0, bs[:300]) == py_crc_long_prefix(c0, bs[:300], t)
+    return c
+
+
+def py_crc_long_prefix(c, bs, t):
+    for b in bs:
+        c = (c >> 8) ^ t[(c ^ b) & 0xff]
+    return c
+
+
+def gen_more(ctx):
+    """C-only cases (own random stream):
+    big  -- crcx lines with buffers of 2^18 .. 2^22 bytes (+1, +3, ...), whole and with one piece above 2^18: a separate path for
+            large buffers (block-wise processing, a wider or narrower counter) is entered only there;
+    seq  -- crcseq lines: the same buffer and the same state variable used for several calls in a row with other contents / other
+            initial states of the same length: a result remembered from an earlier call must not leak into a later one."""
+    rnd = random.Random(ctx.seed * 15485863 + 171717)
+    lines, meta = [], []
+    bigs = [2 ** 18, 2 ** 18 + 1, 2 ** 19 + 5, 2 ** 20, 2 ** 20 + 1, 2 ** 21 + 3] + ([] if ctx.quick else [2 ** 22 + 1, 2 ** 24 + 1, 2 ** 24 + 65536])
+    bigs.append(rnd.randrange(2 ** 18, 2 ** 21))
+    for n in bigs:
+        bs = rnd.randbytes(n)
+        init = rnd.choice([0, 0xffff, rnd.randrange(65536)])
+        pieces = rnd.choice([[], [n // 2 + 1 + rnd.randrange(100)], [rnd.randrange(1, 70000), 2 ** 18 + rnd.randrange(0, 64)]])
+        lines.append("crcx %d %d %s %s" % (rnd.randrange(64), init, hexs(bs), ",".join(map(str, pieces)) if pieces else "-"))
+        meta.append(("big", init, bs))
+    for blen in [1, 2, 3, 15, 16, 17, 63, 64, 65, 100, 127, 128, 129, 255, 256, 512, 1000, 1023, 1024, 1025, 2048, 4095, 4096, 4097,
+                 8192, 8193, 16384, 65535, 65536, 70000]:
+        for rep in range(2 if blen <= 8193 else 1):
+            k = rnd.choice([3, 4, 5])
+            chunks, inits = [], []
+            for j in range(k):
+                r = rnd.random()
+                if j and r < 0.2:
+                    chunks.append(chunks[rnd.randrange(j)])          # the same contents again
+                elif j and r < 0.45 and blen > 2:
+                    c = bytearray(chunks[-1])                          # one byte differs (first / last / anywhere)
+                    q = rnd.choice([0, blen - 1, rnd.randrange(blen)])
+                    c[q] ^= 1 << rnd.randrange(8)
+                    chunks.append(bytes(c))
+                else:
+                    chunks.append(rnd.randbytes(blen))
+                inits.append(inits[-1] if j and rnd.random() < 0.7 else rnd.choice([0, 0, 0xffff, rnd.randrange(65536)]))
+            lines.append("crcseq %d %d %s %s" % (rnd.randrange(64), blen, ",".join(map(str, inits)), hexs(b"".join(chunks))))
+            meta.append(("seq", inits, chunks))
+    return lines, meta
+
+
 def gen_cases(ctx):
     rnd = random.Random(ctx.seed * 7919 + 17)
     lines, meta = [], []
@@ -166,8 +227,25 @@ def run(ctx):
             if not ok:
                 viol.append({"property": PID, "kind": "crc-buffer", "case": ln, "observed": c,
                              "expected_bitwise": exp, "how_to_replay": "./check --replay <this file>"})
+        # (d) buffers of 2^18 .. 2^22 bytes, and one buffer / one state variable used for several calls in a row
+        gl, gmeta = gen_more(ctx)
+        go = run_lines_parallel([cexe], gl)
+        for ln, mt, c in zip(gl, gmeta, go):
+            cc = c.split()
+            if mt[0] == "big":
+                exp = "%04x" % py_crc_long(mt[1], mt[2])
+                ok = len(cc) == 2 and cc[0] == exp and cc[1] == exp
+            else:
+                exp = " ".join("%04x" % py_crc(i_, ch) if len(ch) < 5000 else "%04x" % py_crc_long(i_, ch) for i_, ch in zip(mt[1], mt[2]))
+                ok = c.strip() == exp
+            if not ok:
+                viol.append({"property": PID, "kind": "crc-buffer", "case": ln, "observed": c[:200],
+                             "expected_bitwise": exp, "how_to_replay": "./check --replay <this file>"})
         lens = [len(b) for _, b, _ in meta]
-        cov = {"evaluations": len(lines) + nstate + len(xl),
+        cov = {"evaluations": len(lines) + nstate + len(xl) + len(gl),
+               "extra2": "%d buffers of 2^18 .. 2^22 bytes (whole and with a piece above 2^18), %d sequences of 3-5 calls on one buffer and one "
+                         "state variable with other contents / initial states of the same length (1 .. 70000 bytes)"
+                         % (sum(1 for m_ in gmeta if m_[0] == "big"), sum(1 for m_ in gmeta if m_[0] == "seq")),
                "extra": "%d buffers: every length 0..96 at every start alignment 0..15 (and 16..63 in rotation), lengths in "
                         "4097..65534, every residue modulo 64 of lengths above 8192 and above 65536 with uneven pieces, and %d "
                         "calls whose state variable lies inside the buffer" % (sum(1 for i, _ in xmeta if i is not None),
@@ -195,7 +273,9 @@ def replay(payload):
         out, rc, err = common.run_lines([cexe], [payload["case"]])
         print("case:", payload["case"][:300])
         print("observed:", out, "expected:", payload.get("expected_bitwise"))
-        if payload["case"].startswith("crcalias"):
+        if payload["case"].startswith("crcseq"):
+            ok = out and out[0].strip() == payload.get("expected_bitwise")
+        elif payload["case"].startswith("crcalias"):
             bs = bytes.fromhex(payload["case"].split()[2])
             cc = out[0].split() if out else []
             ok = len(cc) == 2 and len(cc[0]) == 4 and cc[1] == "%04x" % py_crc(int(cc[0], 16), bs)
